@@ -514,6 +514,8 @@ def inline_named_tests(f_new, f_ref):
         return not any(isinstance(x, (ast.Call, ast.NamedExpr, ast.Await, ast.Yield, ast.YieldFrom, ast.Lambda, ast.ListComp, ast.SetComp, ast.DictComp, ast.GeneratorExp))
                        and not (isinstance(x, ast.Call) and isinstance(x.func, ast.Name) and x.func.id in ("len", "isinstance", "hasattr")) for x in ast.walk(e))
 
+    pairs_nt = _pair_headers(f_new, f_ref)[0]       # a statement that aligns with one of the reference is the reference's own naming
+
     def inline_tests(owner, field):
         lst = getattr(owner, field)
         i = 0
@@ -521,7 +523,7 @@ def inline_named_tests(f_new, f_ref):
             a, b = lst[i], lst[i + 1]
             if isinstance(a, ast.Assign) and len(a.targets) == 1 and isinstance(a.targets[0], ast.Name) and isinstance(b, ast.If):
                 t = a.targets[0].id
-                if t not in ref_stored0 and uses.get(t) == [1, 1] and t not in nested_names:
+                if t not in ref_stored0 and id(a) not in pairs_nt and uses.get(t) == [1, 1] and t not in nested_names:
                     hits = [x for x in ast.walk(b.test) if isinstance(x, ast.Name) and x.id == t]
                     whole = isinstance(b.test, ast.Name) or (isinstance(b.test, ast.UnaryOp) and isinstance(b.test.op, ast.Not) and isinstance(b.test.operand, ast.Name))
                     if len(hits) == 1 and (whole or _callfree(a.value)):
